@@ -585,8 +585,10 @@ impl<'a> ExpandedSelection<'a> {
                 .collect();
 
             // If we only have an `on` field, turn the struct into the enum
-            // of the variants.
-            if fields.peek().is_none() {
+            // of the variants. (A selection with neither fields nor variants, e.g. only
+            // `__typename` on an object, stays a struct: an enum without variants could not
+            // be deserialized at all.)
+            if fields.peek().is_none() && !on_variants.is_empty() {
                 let item = quote! {
                     #response_derives
                     #[serde(crate = #serde_path)]
